@@ -37,15 +37,42 @@ struct StepObs {
     files: BTreeMap<String, Vec<u8>>,
 }
 
+/// The seeded rng of the plan, or one that always returns the same bytes: `emit::Rng` promises no uniqueness,
+/// and two files of one period created in the same millisecond then get the same name.
+#[derive(Clone)]
+enum PlanRng {
+    Seeded(SimRng),
+    Constant,
+}
+
+impl emit::Rng for PlanRng {
+    fn fill<A: AsMut<[u8]>>(&self, mut arr: A) -> Option<A> {
+        match self {
+            PlanRng::Seeded(r) => r.fill(arr),
+            PlanRng::Constant => {
+                for b in arr.as_mut() {
+                    *b = 0x5a;
+                }
+                Some(arr)
+            }
+        }
+    }
+}
+
 fn run_plan<F: SimFilesystem>(
     plan: &Plan,
+    constant_rng: bool,
     fs: &dyn Fn() -> F,
     worker_dir: String,
     snapshot: &dyn Fn() -> BTreeMap<String, Vec<u8>>,
 ) -> Vec<StepObs> {
     let cfg = &plan.cfg;
     let clock = SimClock(Arc::new(Mutex::new(plan.start)));
-    let rng = SimRng(Arc::new(Mutex::new(Rng::new(plan.rng_seed))));
+    let rng = if constant_rng {
+        PlanRng::Constant
+    } else {
+        PlanRng::Seeded(SimRng(Arc::new(Mutex::new(Rng::new(plan.rng_seed)))))
+    };
     let new_worker = || {
         DirectWorker::new(
             fs(),
@@ -163,8 +190,11 @@ impl Engine for FsDiff {
 
     fn run(&self, ch: &mut Choices, ctx: &RunCtx) -> Outcome {
         let mut out = Outcome::default();
+        // the comparison serves whichever of the two filesystem properties is being checked
+        let prop: &'static str = if ctx.property == "C10" { "C10" } else { "C11" };
         let mode = if ch.chance(1, 4) { "C10" } else { "C11" };
         let plan = gen_plan(ch, mode, ctx.thorough);
+        let constant_rng = ch.chance(1, 4);
         let cfg = &plan.cfg;
 
         // --- simulated
@@ -190,7 +220,7 @@ impl Engine for FsDiff {
                     .map(|(p, d, _, _)| (name_of(&p), d))
                     .collect()
             };
-            run_plan(&plan, &|| sim.clone(), cfg.raw_dir.clone(), &snap)
+            run_plan(&plan, constant_rng, &|| sim.clone(), cfg.raw_dir.clone(), &snap)
         };
 
         // --- real
@@ -226,7 +256,7 @@ impl Engine for FsDiff {
                 }
                 m
             };
-            run_plan(&plan, &|| StdFs, path_str(&real_dir), &snap)
+            run_plan(&plan, constant_rng, &|| StdFs, path_str(&real_dir), &snap)
         };
         drop(scratch);
 
@@ -243,7 +273,7 @@ impl Engine for FsDiff {
             }
             if s.outcome != r.outcome {
                 out.violate(
-                    "C11",
+                    prop,
                     "simfs_vs_stdfs_divergence",
                     format!("step {i} (template {}): the batch ended `{}` over the simulated filesystem but `{}` over the real one", cfg.template, s.outcome, r.outcome),
                 );
@@ -254,7 +284,7 @@ impl Engine for FsDiff {
                 let only_real: Vec<&String> = r.files.keys().filter(|k| !s.files.contains_key(*k)).collect();
                 let differ: Vec<&String> = s.files.iter().filter(|(k, v)| r.files.get(*k).map(|rv| rv != *v).unwrap_or(false)).map(|(k, _)| k).collect();
                 out.violate(
-                    "C11",
+                    prop,
                     "simfs_vs_stdfs_divergence",
                     format!(
                         "step {i} (template {}): directory contents differ between the simulated and the real filesystem: only simulated {only_sim:?}, only real {only_real:?}, different bytes {differ:?}",
@@ -265,10 +295,10 @@ impl Engine for FsDiff {
             }
         }
         if sim_obs.len() != real_obs.len() {
-            out.violate("C11", "simfs_vs_stdfs_divergence", "the two executions have different lengths".to_string());
+            out.violate(prop, "simfs_vs_stdfs_divergence", "the two executions have different lengths".to_string());
         }
         let mut h = Fnv::new();
-        h.str(&format!("{plan:?}"));
+        h.str(&format!("{plan:?} {constant_rng}"));
         for s in &sim_obs {
             h.str(&s.outcome);
             for (n, d) in &s.files {
@@ -285,6 +315,12 @@ impl Engine for FsDiff {
         }
         if plan.raw_stranger {
             out.probe("real_non_utf8_names_and_lookalike_directory");
+        }
+        if constant_rng {
+            out.probe("constant_rng");
+            if sim_obs.iter().any(|o| o.outcome.starts_with("gave_up")) {
+                out.probe("file_name_collision_refused");
+            }
         }
         out
     }
